@@ -23,6 +23,10 @@ CONSTANTS
   JoinWaitsExit = TRUE
   RunErrsOnNonZero = FALSE
   BlockOnExact = TRUE
+  SelfSend = FALSE
+  SelfSendViaChannel = TRUE
+  NegCodeIsErr = TRUE
+  CtrlBatch = 0
 SPECIFICATION Spec
 VIEW View
 SYMMETRY ThrSym
